@@ -152,6 +152,84 @@ def canary_unit(spec, features=()):
 
 
 # --------------------------------------------------------------------------
+# Glue: the code the real proc macros of the current tree emit for the zoo schemas, verified against the trait contracts
+# that unit uper ASSUMES of generated code (tools/glue.py: rules G1-G7)
+# --------------------------------------------------------------------------
+
+def glue_unit(replay_bin, schemas, canary=False):
+    import glue
+    parts = []
+    info = []
+    for sch in schemas:
+        path = os.path.join(VERIF, 'contracts', 'zoo', sch)
+        try:
+            txt = glue.macro_output(replay_bin, path)
+            g, rules = glue.transform(txt, REPO)
+            n_fns = len(re.findall(r'(?<!spec )\bfn \w+', g))
+            if canary:
+                g, n_ins = glue.insert_canaries(g)
+            else:
+                n_ins = 0
+        except glue.GlueError as ex:
+            raise Undecided('the glue rules G1-G7 do not cover what the macros of this tree emit for %s: %s' % (sch, ex))
+        except subprocess.TimeoutExpired:
+            raise Undecided('replay gen %s did not return' % sch)
+        mod = 'glue_' + re.sub(r'\W', '_', sch.rsplit('.', 1)[0])
+        parts.append('// VERIF-GLUE-BEGIN %s\npub mod %s { use super::*;\n%s\n}\n// VERIF-GLUE-END %s\n' % (sch, mod, g, sch))
+        info.append({'schema': sch, 'rules_fired': rules, 'generated_fns': n_fns, 'canaries': n_ins,
+                     'types': sorted(set(re.findall(r'impl (?:sequence|set|choice|enumerated)::Constraint for (\w+)', g)))})
+    os.makedirs(GEN, exist_ok=True)
+    open(os.path.join(GEN, 'glue_zoo.txt'), 'w').write(''.join(parts))
+    r = verus_unit('glue.spec', suffix='_canary' if canary else '')
+    r['glue'] = info
+    r['verified_raw'] = r['verified']
+    # attribute diagnostics inside the generated region to `glue::<schema>::<Type>::<fn>`
+    lines = open(r['gen']).read().split('\n')
+    region = {}
+    cur = None
+    for i, l in enumerate(lines, 1):
+        if l.startswith('// VERIF-GLUE-BEGIN '):
+            cur = l.split(' ', 2)[2].strip()
+        elif l.startswith('// VERIF-GLUE-END '):
+            cur = None
+        elif cur:
+            region[i] = cur
+    for f in r['failures']:
+        inside = [ln for ln in f['lines'] + [int(x) for x in re.findall(r'^\s*(\d+) \|', f['diagnostic'], re.M)] if ln in region]
+        if not inside:
+            continue
+        ln = inside[0]
+        fn = ty = None
+        k = ln
+        while k >= 1 and k in region:
+            t = lines[k - 1]
+            if fn is None:
+                m = re.match(r'\s*fn (\w+)', t)
+                if m:
+                    fn = m.group(1)
+            m = re.match(r'impl(?:<[^>]*>)? (.+?) for (\w+)', t)
+            if m:
+                ty = '%s as %s' % (m.group(2), m.group(1).strip())
+                break
+            k -= 1
+        f['function'] = 'glue::%s::%s::%s' % (region[ln], ty or '?', fn or '?')
+        f['glue'] = True
+        f['repo_file'] = 'asn1rs-model/src/proc_macro + asn1rs-model/src/generate/walker.rs (macro output for contracts/zoo/%s)' % region[ln]
+        body = []
+        k2 = k
+        while k2 <= len(lines) and k2 in region and k2 <= ln:
+            body.append(lines[k2 - 1])
+            k2 += 1
+        f['glue_has_loop'] = bool(re.search(r'\bwhile\b|\bloop\s*\{|\bfor\s+\S+\s+in\b', ' '.join(b_ for b_ in body if not b_.startswith('impl'))))
+    # obligations of this unit = the generated functions (the surrounding declarations are those of unit uper and are counted there)
+    if not (r['compile_error'] or r['vir_error']):
+        total = sum(i['generated_fns'] for i in info)
+        bad = len(set(f['function'] for f in r['failures'])) if r['errors'] else 0
+        r['verified'], r['errors'] = total - min(bad, total), (bad if r['errors'] else 0)
+    return r
+
+
+# --------------------------------------------------------------------------
 # Kani
 # --------------------------------------------------------------------------
 
@@ -358,10 +436,37 @@ def check(pid, tier, seed):
     replay_bin = None
     search_cache = {}
     applies = lambda e: e['property'] == pid or pid in e.get('also', [])
-    need_replay = bool(failed_obls) or bool(cfg.get('bounded_search')) or any(applies(e) for e in known['findings'] + known.get('fixed', [])) or any(k['status'] == 'FAILED' for k in kani_runs) or cfg.get('search_always')
+    need_replay = bool(cfg.get('glue')) or bool(failed_obls) or bool(cfg.get('bounded_search')) or any(applies(e) for e in known['findings'] + known.get('fixed', [])) or any(k['status'] == 'FAILED' for k in kani_runs) or cfg.get('search_always')
     if (need_replay or (undecided and cfg.get('search_groups'))) and os.path.exists(os.path.join(REPLAY_DIR, 'Cargo.toml.in')):
         try:
             replay_bin = replay_build()
+        except Undecided as ex:
+            undecided.append(str(ex))
+
+    # ---- glue units: real macro output for the zoo schemas against the trait contracts assumed of generated code
+    glue_info = None
+    if cfg.get('glue') and replay_bin and not undecided:
+        try:
+            rg = glue_unit(replay_bin, cfg['glue'])
+            if rg['compile_error'] or rg['vir_error']:
+                raise Undecided('verus could not process the glue unit (the macro output uses a construct outside rules G1-G7 / the Verus subset): %s' % rg['stderr'][-2500:])
+            if rg['errors'] > 0 and rg['rlimit_hit']:
+                raise Undecided('resource limit exceeded in the glue unit')
+            loops = [f['function'] for f in rg['failures'] if f.get('glue_has_loop')]
+            if loops:
+                raise Undecided('generated code with a loop failed to verify (no invariant can be attached to macro output): %s' % ', '.join(loops))
+            verus_runs.append(rg)
+            glue_info = rg['glue']
+            for f in rg['failures']:
+                name = ('%s::%s' % (f['function'], f['kind'])) if f.get('glue') else '%s::%s::%s' % (rg['unit'], (f['function'] or '?'), f['kind'])
+                failed_obls.append((rg, f, name))
+            if not rg['failures']:
+                cg = glue_unit(replay_bin, cfg['glue'], canary=True)
+                want = sum(i['canaries'] for i in cg['glue'])
+                refuted = len(set(f['function'] for f in cg['failures'] if f.get('glue') and 'assertion failed' in f['kind']))
+                canaries.append({'unit': 'glue_canary', 'expected': want, 'refuted': refuted, 'vacuous': [] if refuted >= want else ['%d generated functions' % (want - refuted)], 'wall_s': cg['wall_s']})
+                if refuted < want:
+                    undecided.append('vacuity guard: assert(false) verified in %d generated glue functions' % (want - refuted))
         except Undecided as ex:
             undecided.append(str(ex))
 
@@ -576,12 +681,16 @@ def check(pid, tier, seed):
     trusted = set(cfg.get('trusted_base', []))
     for r in verus_runs:
         for f in r['meta']['functions']:
-            (assumed if f['assumed'] else under_contract).append('%s [%s:%d-%d]' % (f['fn'].split(' :: ', 1)[1] if ' :: ' in f['fn'] else f['fn'], f['file'], f['line_start'], f['line_end']))
+            label = '%s [%s:%d-%d]' % (f['fn'].split(' :: ', 1)[1] if ' :: ' in f['fn'] else f['fn'], f['file'], f['line_start'], f['line_end'])
+            if f.get('trusted'):
+                trusted.add('contract ASSUMED, body not verified (outside the Verus subset): ' + label)
+            else:
+                (assumed if f['assumed'] else under_contract).append(label)
         for w in r['meta']['rewrites']:
             rewrites[w['rule']] = rewrites.get(w['rule'], 0) + 1
         gen_text = open(r['gen']).read()
         # functions whose body is replaced here because they are PROVED in their home unit (rule A0) are not trusted: listed separately
-        a0 = set(f['fn'].split(' :: ')[-1] for f in r['meta']['functions'] if f['assumed'])
+        a0 = set(f['fn'].split(' :: ')[-1] for f in r['meta']['functions'] if f['assumed'] and not f.get('trusted'))
         for m in re.finditer(r'#\[verifier::external_body\]\s*(?:pub\s+)?(?:proof\s+)?fn\s+(\w+)', gen_text):
             if m.group(1) not in a0:
                 trusted.add('external_body: ' + m.group(1))
@@ -619,6 +728,7 @@ def check(pid, tier, seed):
         'cfg_gated_sites': [{k2: st[k2] for k2 in ('file', 'line', 'kind', 'fn', 'decided_by')} for st in static_sites],
         'differential_stand_in': differential,
         'thorough_exploration': exploration,
+        'generated_glue_verified': glue_info,
         'undecided': undecided,
         'explanation': cfg.get('explanation', ''),
     })
